@@ -14,7 +14,7 @@
 (*   <<"CONSUMED", lines, "FAILS", n, ...>>                                *)
 (* is printed when every line has been consumed.                           *)
 (***************************************************************************)
-EXTENDS Rfc1951, DeflateParams, DeflateContract, InflateContract, Checksums, CApi, Json, IOUtils
+EXTENDS Rfc1951, DeflateParams, DeflateContract, InflateContract, Checksums, CApi, DeflateLZRules, Json, IOUtils
 
 Rec == ndJsonDeserialize(IOEnv.TRACE)
 
@@ -189,7 +189,9 @@ EvComp ==
          fails == CompRules(dc, e)
                \o If(okc /\ ip # 0 /\ HasF(e, "adler") /\ HasF(e, "zlib") /\ e.zlib =>
                        e.adler = newad, "compressor_adler_is_adler_of_consumed_input")
-     IN /\ Report(fails, 6)
+               \* the match finder's state read through the hook, judged by the rules of DeflateLZ.tla
+               \o (IF HasF(e, "lz") THEN StateRules(e.lz, 32768, e.lz.lamax) ELSE <<>>)
+     IN /\ Report(fails, IF HasF(e, "lz") THEN 14 ELSE 6)
         /\ dc' = [CompNext(dc, e) EXCEPT !.adler = newad]
   /\ l' = l + 1
   /\ Keep(<<acc, cs, ip, cid, ds, ss, cc, seen>>)
@@ -217,7 +219,8 @@ EvFlushpoint ==
 
 EvDefl ==
   /\ Is("defl")
-  /\ Report(DeflRules(dc, E), 9)
+  /\ Report(DeflRules(dc, E) \o (IF HasF(E, "lz") THEN StateRules(E.lz, 32768, E.lz.lamax) ELSE <<>>),
+            IF HasF(E, "lz") THEN 17 ELSE 9)
   /\ dc' = DeflNext(dc, E)
   /\ l' = l + 1
   /\ Keep(<<acc, cs, ip, cid, ds, ss, cc, seen>>)
